@@ -67,7 +67,7 @@ class Ctx:
 
 # ------------------------------------------------------------------------------- sanitizer reports
 SAN_ENV = {
-    "ASAN_OPTIONS": "abort_on_error=0:exitcode=99:detect_leaks=1:allocator_may_return_null=1:"
+    "ASAN_OPTIONS": "abort_on_error=0:exitcode=99:detect_leaks=0:allocator_may_return_null=1:"
                     "detect_stack_use_after_return=0:malloc_context_size=12:symbolize=1",
     "UBSAN_OPTIONS": "print_stacktrace=1:halt_on_error=1:exitcode=99",
     "LSAN_OPTIONS": "exitcode=99",
